@@ -188,6 +188,8 @@ std::vector<std::vector<double>> Import_Table(std::string filepath, std::vector<
 		inputfile.close();
 
 		unsigned int rows	 = Count_Lines(filepath) - ignored_initial_lines;
+		if(rows == 0)	// A file without lines (after the ignored ones) is an empty table.
+			return std::vector<std::vector<double>>();
 		unsigned int columns = data_aux.size() / rows;
 		if(!dimensions.empty() && dimensions.size() != columns)
 		{
